@@ -14,6 +14,7 @@ void vorbis_lpc_predict(float *coeff, float *prime, int m, float *data, long n)
   __CPROVER_requires(n >= 0 && m >= 0 && m <= 32 && RW(coeff, sizeof(float) * m) && (prime == NULL || RW(prime, sizeof(float) * m)) && RW(data, sizeof(float) * n))
   __CPROVER_assigns(__CPROVER_object_whole(data)) __CPROVER_ensures(1);
 
+#ifndef VERIF_UNIT_WROTE
 static void _preextrapolate_helper(vorbis_dsp_state *v)
   __CPROVER_requires(RW(v, sizeof(*v)) && RW(v->vi, sizeof(vorbis_info)) && v->vi->channels >= 1 && v->vi->channels <= VERIF_MAXCH)
   /* any amount of audio may have been submitted (C04: pieces of any sizes) */
@@ -27,4 +28,52 @@ static void _preextrapolate_helper(vorbis_dsp_state *v)
   REACH_ENSURES(v->pcm_current - v->centerW <= 32)
 #endif
   ;
+#endif
+
+/* ---- vorbis_analysis_wrote (C04: the encoder's count of submitted samples) ---- */
+#ifdef VERIF_UNIT_WROTE
+int g_pre_calls;
+long g_buf_req;   /* argument of the vorbis_analysis_buffer call made for the padding */
+#define WCI(v) ((codec_setup_info *)(v)->vi->codec_setup)
+static void _preextrapolate_helper(vorbis_dsp_state *v)
+  __CPROVER_assigns(v->preextrapolate, g_pre_calls) __CPROVER_ensures(v->preextrapolate == 1 && g_pre_calls == OLD(g_pre_calls) + 1);
+/* vorbis_analysis_buffer (same file) by contract: afterwards every row has room
+   for pcm_current+vals samples (rows may have moved: realloc) */
+float **vorbis_analysis_buffer(vorbis_dsp_state *v, int vals)
+  __CPROVER_requires(vals >= 0 && vals <= 3 * 8192)
+  __CPROVER_assigns(v->pcm_storage, g_buf_req, __CPROVER_object_whole(v->pcm), __CPROVER_object_whole(v->pcmret))
+  __CPROVER_frees(v->pcm[0], v->pcm[1])
+  __CPROVER_ensures(g_buf_req == vals && v->pcm_storage >= OLD(v->pcm_storage) && v->pcm_storage > v->pcm_current + vals &&
+                    v->pcm_storage <= (1 << 29) &&
+                    FRESH(v->pcm[0], sizeof(float) * v->pcm_storage) && FRESH(v->pcm[1], sizeof(float) * v->pcm_storage));
+extern const void *__CPROVER_alloca_object;   /* CBMC-internal cell written by its alloca model */
+int vorbis_analysis_wrote(vorbis_dsp_state *v, int vals)
+  __CPROVER_requires(vals <= (1 << 28))   /* pcm_current+vals is int arithmetic: no request beyond 2^28 samples */
+  __CPROVER_requires(RW(v, sizeof(*v)) && RW(v->vi, sizeof(vorbis_info)) && RW(v->vi->codec_setup, sizeof(codec_setup_info)) &&
+                     v->vi->channels >= 1 && v->vi->channels <= VERIF_MAXCH && g_pre_calls == 0)
+  __CPROVER_requires(WCI(v)->blocksizes[1] >= 64 && WCI(v)->blocksizes[1] <= 8192 && v->centerW >= 0 && v->centerW <= 4096 &&
+                     v->pcm_current >= v->centerW && v->pcm_current <= v->pcm_storage && v->pcm_storage <= (1 << 28) &&
+                     (v->preextrapolate == 0 || v->preextrapolate == 1))
+  __CPROVER_assigns(v->pcm_current, v->eofflag, v->preextrapolate, v->pcm_storage, g_pre_calls, g_buf_req, __CPROVER_alloca_object,
+                    __CPROVER_object_whole(v->pcm), __CPROVER_object_whole(v->pcmret), __CPROVER_object_whole(v->pcm[0]), __CPROVER_object_whole(v->pcm[1]))
+  __CPROVER_frees(v->pcm[0], v->pcm[1])
+  __CPROVER_ensures(RV == 0 || RV == OV_EINVAL)
+  /* more than the buffer handed out by vorbis_analysis_buffer: refused, nothing counted */
+  __CPROVER_ensures((vals > 0 && OLD(v->pcm_current) + vals > OLD(v->pcm_storage)) ==> (RV == OV_EINVAL && v->pcm_current == OLD(v->pcm_current) && v->eofflag == OLD(v->eofflag)))
+  /* otherwise exactly `vals` more samples are counted */
+  __CPROVER_ensures((vals > 0 && OLD(v->pcm_current) + vals <= OLD(v->pcm_storage)) ==> (RV == 0 && v->pcm_current == OLD(v->pcm_current) + vals && v->eofflag == OLD(v->eofflag)))
+  /* end of input: the end mark is the number of real samples; three long blocks of padding follow */
+  __CPROVER_ensures(vals <= 0 ==> (RV == 0 && v->eofflag == OLD(v->pcm_current) && v->pcm_current == OLD(v->pcm_current) + 3 * WCI(v)->blocksizes[1] &&
+                                   v->preextrapolate == 1 && g_buf_req == 3 * WCI(v)->blocksizes[1] && v->pcm_current <= v->pcm_storage))
+  /* the start-of-stream extrapolation runs at most once */
+  __CPROVER_ensures(g_pre_calls <= 1 && (OLD(v->preextrapolate) ==> g_pre_calls == 0))
+#ifdef VERIF_ENFORCE_vorbis_analysis_wrote
+  REACH_ENSURES(vals > 0 && RV == 0 && g_pre_calls == 1)
+  REACH_ENSURES(vals <= 0 && OLD(v->pcm_current) <= 64 && v->vi->channels == 2)
+  REACH_ENSURES(vals <= 0 && OLD(v->pcm_current) > 100000)
+  REACH_ENSURES(RV == OV_EINVAL)
+#endif
+  ;
+#endif
+
 #endif
